@@ -236,10 +236,10 @@ Proof.
 Qed.
 
 (* ---- C08 file_conforms -------------------------------------------------------------- *)
-Theorem file_eq (e : exchange) : go_exchange e -> int64 (e_status e) ->
-  spec_file e = to_opt (write e).
+Lemma file_eq_body (e : exchange) : go_exchange e -> int64 (e_status e) ->
+  spec_file e = to_opt (write_body e).
 Proof.
-  intros Hg Hz. unfold spec_file, write. rewrite (headers_cbor_eq e Hg Hz).
+  intros Hg Hz. unfold spec_file, write_body. rewrite (headers_cbor_eq e Hg Hz).
   pose proof (encode_exchange_headers_ok_or_err e) as Hoe.
   destruct (encode_exchange_headers e) as [hdr| | |]; cbn [to_opt bind]; try contradiction;
     [|reflexivity].
@@ -269,9 +269,17 @@ Proof.
     destruct (be_encode (Z.of_N (lenN hdr)) 3); reflexivity.
 Qed.
 
-Lemma write_ok_or_err (e : exchange) : match write e with Ok _ | Err => True | _ => False end.
+(* Write = its refusals (fallback URL not https; b2 request header ":url"), then the
+   specified file *)
+Theorem file_eq (e : exchange) : go_exchange e -> int64 (e_status e) ->
+  to_opt (write e) = if write_refuses e then None else spec_file e.
 Proof.
-  unfold write. pose proof (encode_exchange_headers_ok_or_err e) as Hoe.
+  intros Hg Hz. rewrite write_unfold, (file_eq_body e Hg Hz). destruct (write_refuses e); reflexivity.
+Qed.
+
+Lemma write_body_ok_or_err (e : exchange) : match write_body e with Ok _ | Err => True | _ => False end.
+Proof.
+  unfold write_body. pose proof (encode_exchange_headers_ok_or_err e) as Hoe.
   destruct (encode_exchange_headers e) as [hdr| | |]; cbn [bind]; try exact I; try contradiction.
   rewrite !be_encode_len by lia.
   destruct (e_ver e).
@@ -289,11 +297,14 @@ Proof.
     destruct (lenN hdr <? 2 ^ (8 * 3)); exact I.
 Qed.
 
+Lemma write_ok_or_err (e : exchange) : match write e with Ok _ | Err => True | _ => False end.
+Proof. rewrite write_unfold. destruct (write_refuses e); [exact I|apply write_body_ok_or_err]. Qed.
+
 Theorem file_conforms (e : exchange) (bs : bytes) : go_exchange e -> int64 (e_status e) ->
-  (write e = Ok bs <-> spec_file e = Some bs).
+  (write e = Ok bs <-> write_refuses e = false /\ spec_file e = Some bs).
 Proof.
-  intros Hg Hz. rewrite (file_eq e Hg Hz).
-  destruct (write e); cbn [to_opt]; split; intros H; congruence.
+  intros Hg Hz. rewrite write_ok_body, (file_eq_body e Hg Hz).
+  destruct (write_body e); cbn [to_opt]; split; intros [H1 H2]; split; congruence.
 Qed.
 
 (* ---- C08 header_integrity_conforms ------------------------------------------------- *)
